@@ -49,6 +49,13 @@ def ctx {α} (ann : List (String × String)) : R α → R α
   | .error (.err msg) => if ann.isEmpty then .error (.err msg) else .error (.errCtx msg ann)
   | r => r
 
+/-- `ctx` never touches a success -/
+theorem ctx_eq_ok {α} (ann : List (String × String)) (r : R α) (v : α) : ctx ann r = .ok v ↔ r = .ok v := by
+  unfold ctx
+  split
+  · split <;> simp
+  · rfl
+
 /-- annotations of an outcome (empty for `ok`, `panic` and un-annotated errors) -/
 def R.ann {α} : R α → List (String × String)
   | .error (.errCtx _ a) => a
